@@ -99,6 +99,9 @@ def execute(case):
     model = case["model"]
     ref = RefModel(model, insertion_order(model))
     try:
+        # assigning random parameters draws a first value from numpy's global generator: start it from the case
+        # (one run = one repeatable execution, whatever the process did before)
+        np.random.seed(int(case.get("run_seed", 0)) % (2 ** 32))
         ode = build_model(pg, model, backend="lambda")
         if case.get("param_spec"):
             ode.parameters = make_params(pg, case["param_spec"], ref)
